@@ -766,7 +766,7 @@ func (e *env) flow(i int) c.Case {
 		}
 		ba := backAns{Refresh: 201, Validate: 200}
 		if revoked || r.Chance(0.1) {
-			ba = backAns{Refresh: 401, Validate: []int{401, 401, 400, 403, 404, 0}[r.Intn(6)]}
+			ba = backAns{Refresh: 401, Validate: []int{401, 401, 400, 403, 404, 500}[r.Intn(6)]}
 		}
 		h.reuseStep(pw, host, ps, vnow, ba)
 	}
